@@ -180,9 +180,16 @@ def private_state(tree) -> PrivateState:
             items = [(k, e) for k, e in v.items() if e is not None][:20]
             return bool(items) and all(hasattr(e, "get") and str(e.get("href") or "").endswith(str(k)) for k, e in items)
 
+        def looks_ids(v):
+            items = [(k, e) for k, e in v.items() if e is not None][:20]
+            return bool(items) and all(hasattr(e, "get") and str(k) in (e.get(a) for a in (XMI_ID, "id", "uid")) for k, e in items)
+
         hr = [k for k in flat if looks_href(dicts[k])]
-        if len(hr) != 1:   # no placeholder in this file: fall back to the name
-            hr = [k for k in flat if "href" in k.lower()]
+        if len(hr) != 1:   # no placeholder in this file: the id index is recognisable, the other one is the href index
+            ic0 = [k for k in flat if looks_ids(dicts[k])]
+            hr = [k for k in flat if k not in ic0] if len(ic0) == 1 and len(flat) == 2 else [k for k in flat if "href" in k.lower() or "placeholder" in k.lower()]
+        if len(hr) != 1 and len(flat) == 2:   # both empty: declaration order of `idcache_rebuild` (id index first)
+            hr = [flat[1]]
         ic = [k for k in flat if k not in hr]
         flags = [k for k, v in d.items() if isinstance(v, bool) and "dup" in k.lower()] or [k for k, v in d.items() if isinstance(v, bool)]
         if len(xt) != 1 or len(hr) != 1 or len(ic) != 1 or len(flags) < 1:
